@@ -144,7 +144,12 @@ fn make_pool(rng: &mut Rng, lang: &str, size: usize) -> Vec<String> {
                 if rng.chance(1, 2) { (*rng.pick(corpus::EN_EXTRA)).to_string() } else if !native.is_empty() { (*rng.pick(&native)).to_string() } else { (*rng.pick(ecom)).to_string() }
             }
             6..=7 => synth_title(rng, alphabet),
-            _ => match rng.below(8) {
+            _ => match rng.below(10) {
+                8 => corpus::soup(rng),
+                9 => {
+                    let t = (*rng.pick(ecom)).to_string();
+                    corpus::spice(rng, &t)
+                }
                 0 => String::new(),
                 1 => (*rng.pick(corpus::SEPARATORS)).to_string(),
                 2 => long_word(rng, 21, 70),
@@ -190,7 +195,13 @@ impl GStore {
     }
 
     fn query(&self, rng: &mut Rng, others: &[String]) -> String {
-        match rng.below(20) {
+        match rng.below(22) {
+            20 => corpus::soup(rng),
+            21 if !self.held.is_empty() => {
+                let t = rng.pick(&self.held).clone();
+                let q = type_query(rng, &t);
+                corpus::spice(rng, &q)
+            }
             0..=1 => separator_query(rng),
             2 => unrelated_query(rng),
             3 if !others.is_empty() => {
@@ -249,11 +260,18 @@ fn pollute_op(rng: &mut Rng, t: usize) -> Op {
 fn gen_hist(prop: &str, rng: &mut Rng) -> (Config, Vec<Op>) {
     let threads = rng.range(1, 3);
     let capacity = *rng.pick(&[None, None, None, Some(0), Some(1), Some(2), Some(3), Some(5), Some(20)]);
-    let n_stores = match rng.below(10) {
-        0..=4 => 1,
-        5..=7 => 2,
-        8 => 3,
-        _ => 4,
+    // many short, diverse runs beat a few long ones: almost half of the runs are "tiny"
+    // (one or two stores of 0-3 records, 3-9 further ops)
+    let tiny = rng.chance(4, 9);
+    let n_stores = if tiny {
+        rng.range(1, 2)
+    } else {
+        match rng.below(10) {
+            0..=4 => 1,
+            5..=7 => 2,
+            8 => 3,
+            _ => 4,
+        }
     };
     // swarm: which perturbations are enabled in this run
     let f_pollute = rng.chance(1, 2);
@@ -263,13 +281,13 @@ fn gen_hist(prop: &str, rng: &mut Rng) -> (Config, Vec<Op>) {
     let f_prime = rng.chance(1, 2);
     let f_swing = rng.chance(1, 2);
     let f_repeat = rng.chance(1, 2);
-    let size_class = match prop {
+    let size_class = if tiny { 0 } else { match prop {
         "C06" => rng.weighted(&[3, 5, 2]),
         "C18" => rng.weighted(&[2, 5, 3]),
         "C12" => rng.weighted(&[4, 5, 1]),
         _ => rng.weighted(&[4, 5, 1]),
-    };
-    let len = if rng.chance(1, 2) { rng.range(3, 12) } else if rng.chance(3, 4) { rng.range(13, 60) } else { rng.range(61, 200) };
+    } };
+    let len = if tiny { rng.range(3, 9) } else if rng.chance(1, 3) { rng.range(3, 12) } else if rng.chance(3, 4) { rng.range(13, 60) } else { rng.range(61, 200) };
     // op mix
     let w_add = rng.range(1, 6);
     let w_clear = if f_clear { rng.range(1, 3) } else { 0 };
